@@ -1,8 +1,12 @@
 /-
   Sorted sets (C04) — import-free.
 
-  * `Score` is the order key of a non-NaN f64 (the harness maps sign-magnitude bits to a
-    monotone integer; +0.0 and -0.0 both map to `fin 0`).  `CScore` (Code layer only) adds NaN.
+  * `Score` is the exact value of a non-NaN f64: the harness maps sign-magnitude bits to a
+    monotone integer (`fin k`; +0.0 is `fin 0`, the smallest positive denormal `fin 1`, …) and
+    -0.0 to its own constructor `nzero`, so that the sign of zero is observable in every reply.
+    -0.0 and +0.0 COMPARE EQUAL (`Score.eqv`, Rust `==` / `partial_cmp == Equal`, as in Redis):
+    between two members they are ordered by member bytes like any equal scores.
+    `CScore` (Code layer only) adds NaN.
   * `Spec.*`  : what the property prescribes — a list of `(score, member)` strictly sorted by
     score and then by member bytes, each member once; queries defined from that order.
   * `Code.*`  : transliteration of `src/storage/skiplist.rs` (`SkipList<Vec<u8>, f64>`: level
@@ -20,6 +24,8 @@ open Ferrous
 inductive Score where
   | ninf
   | fin (k : Int)
+  /-- -0.0 (`fin 0` is +0.0) -/
+  | nzero
   | pinf
   deriving DecidableEq, Repr, Inhabited
 
@@ -29,13 +35,26 @@ inductive CScore where
   | nan
   deriving DecidableEq, Repr, Inhabited
 
-def Score.lt : Score → Score → Bool
-  | .ninf, .ninf => false
-  | .ninf, _ => true
-  | .fin _, .ninf => false
-  | .fin a, .fin b => decide (a < b)
-  | .fin _, .pinf => true
-  | .pinf, _ => false
+/-- -inf / finite / +inf -/
+def Score.cls : Score → Int
+  | .ninf => -1
+  | .pinf => 1
+  | _ => 0
+/-- numeric position among the finite values (both zeros at 0) -/
+def Score.mag : Score → Int
+  | .fin k => k
+  | _ => 0
+/-- distinguishes the two zeros (never decides an order between two members) -/
+def Score.zz : Score → Int
+  | .nzero => 0
+  | _ => 1
+
+/-- f64 `<` -/
+def Score.lt (a b : Score) : Bool :=
+  decide (a.cls < b.cls) || (decide (a.cls = b.cls) && decide (a.mag < b.mag))
+
+/-- f64 `==` (`partial_cmp == Equal`): -0.0 and +0.0 are equal -/
+def Score.eqv (a b : Score) : Bool := decide (a.cls = b.cls) && decide (a.mag = b.mag)
 
 def Score.le (a b : Score) : Bool := !(b.lt a)
 
@@ -49,21 +68,41 @@ def bytesLt : Bytes → Bytes → Bool
 abbrev Entry := Score × Bytes
 abbrev CEntry := CScore × Bytes
 
-/-- The prescribed order: by score, then by member bytes. -/
-def entLt (a b : Entry) : Bool := a.1.lt b.1 || (decide (a.1 = b.1) && bytesLt a.2 b.2)
+/-- The prescribed order: by score, then by member bytes.  The last stage (the sign of a zero score
+    of the SAME member) never decides between two entries of a set, whose members are distinct
+    (`entLt_of_ne_member`); it only makes the relation total on arbitrary pairs of values. -/
+def entLt (a b : Entry) : Bool :=
+  a.1.lt b.1 || (a.1.eqv b.1 && (bytesLt a.2 b.2 || (decide (a.2 = b.2) && decide (a.1.zz < b.1.zz))))
 
-/-- `compare_nodes` / `compare_with_query` of skiplist.rs as a strict order: `partial_cmp` on the
-    scores, NaN "greater than any other value", two NaNs (and equal scores) ordered by key. -/
 def CScore.lt : CScore → CScore → Bool
   | .num a, .num b => a.lt b
   | .num _, .nan => true
   | .nan, _ => false
 
-def centLt (a b : CEntry) : Bool := a.1.lt b.1 || (decide (a.1 = b.1) && bytesLt a.2 b.2)
+/-- `partial_cmp == Equal`, or both NaN (the branch of `compare_nodes` that falls through to the key) -/
+def CScore.eqv : CScore → CScore → Bool
+  | .num a, .num b => a.eqv b
+  | .nan, .nan => true
+  | _, _ => false
 
-/-- Rust `==` on f64: NaN is not equal to itself (±0 are already identified by the order key). -/
+def CScore.zz : CScore → Int
+  | .num s => s.zz
+  | .nan => 1
+
+/-- `compare_nodes` / `compare_with_query` of skiplist.rs `== Less`: `partial_cmp` on the scores, NaN
+    "greater than any other value", equal scores (and two NaNs) ordered by key. -/
+def ccmpLt (a b : CEntry) : Bool := a.1.lt b.1 || (a.1.eqv b.1 && bytesLt a.2 b.2)
+/-- `compare_with_query … == Equal` -/
+def ccmpEq (a b : CEntry) : Bool := a.1.eqv b.1 && decide (a.2 = b.2)
+
+/-- The total order used in the proofs: `ccmpLt` refined by the sign of zero of one and the same
+    member.  On every list the code can reach it coincides with `ccmpLt` (members are unique). -/
+def centLt (a b : CEntry) : Bool :=
+  a.1.lt b.1 || (a.1.eqv b.1 && (bytesLt a.2 b.2 || (decide (a.2 = b.2) && decide (a.1.zz < b.1.zz))))
+
+/-- Rust `==` on f64: NaN is not equal to itself; -0.0 == +0.0. -/
 def feq : CScore → CScore → Bool
-  | .num a, .num b => decide (a = b)
+  | .num a, .num b => a.eqv b
   | _, _ => false
 
 /-- Rust `<` / `<=` on f64 (false whenever a NaN is involved): used by `range_by_score`. -/
@@ -225,34 +264,35 @@ def idxSet (m : Bytes) (s : CScore) (idx : List (Bytes × CScore)) : List (Bytes
   insSorted keyLt (m, s) (idxDel m idx)
 
 /-- `insert_new_node`: splice `x` into levels `0 .. n-1` (`n = new_level + 1`), growing the
-    level list with singleton chains when the tower is higher than the list. -/
-def insLevels (x : CEntry) : Nat → List (List CEntry) → List (List CEntry)
+    level list with singleton chains when the tower is higher than the list.
+    (The comparator is a parameter: the code uses `ccmpLt`, the proofs relate it to `centLt`.) -/
+def insLevels (lt : CEntry → CEntry → Bool) (x : CEntry) : Nat → List (List CEntry) → List (List CEntry)
   | 0, ls => ls
-  | n + 1, [] => [x] :: insLevels x n []
-  | n + 1, l :: ls => insSorted centLt x l :: insLevels x n ls
+  | n + 1, [] => [x] :: insLevels lt x n []
+  | n + 1, l :: ls => insSorted lt x l :: insLevels lt x n ls
 
 def insertNode (h : Nat) (x : CEntry) (sl : SkipList) : SkipList :=
-  { sl with levels := insLevels x (h + 1) sl.levels, length := sl.length + 1 }
+  { sl with levels := insLevels ccmpLt x (h + 1) sl.levels, length := sl.length + 1 }
 
 /-- `update[0].forward[0]` after the search walk of `remove_node_by_score`. -/
-def findTarget (q : CEntry) : List CEntry → Option CEntry
+def findTarget (lt : CEntry → CEntry → Bool) (q : CEntry) : List CEntry → Option CEntry
   | [] => none
-  | y :: ys => if centLt y q then findTarget q ys else some y
+  | y :: ys => if lt y q then findTarget lt q ys else some y
 
 /-- One level of the unlink loop: walk to `update[i]`; `forward[i] == None` → continue
     (`some`, unchanged); `forward[i] == target` → unlink; anything else → `break` (`none`).
-    Node identity is `(score, member)` (a node with a non-NaN score is unique per member). -/
-def unlinkAt (q t : CEntry) : List CEntry → Option (List CEntry)
+    Node identity is the node's exact `(score, member)` (a node with a non-NaN score is unique per member). -/
+def unlinkAt (lt : CEntry → CEntry → Bool) (q t : CEntry) : List CEntry → Option (List CEntry)
   | [] => some []
   | y :: ys =>
-    if centLt y q then (unlinkAt q t ys).map (y :: ·)
+    if lt y q then (unlinkAt lt q t ys).map (y :: ·)
     else if y = t then some ys else none
 
-def unlinkLevels (q t : CEntry) : List (List CEntry) → List (List CEntry)
+def unlinkLevels (lt : CEntry → CEntry → Bool) (q t : CEntry) : List (List CEntry) → List (List CEntry)
   | [] => []
   | l :: ls =>
-    match unlinkAt q t l with
-    | some l' => l' :: unlinkLevels q t ls
+    match unlinkAt lt q t l with
+    | some l' => l' :: unlinkLevels lt q t ls
     | none => l :: ls
 
 /-- `while inner.level > 0 && head.forward[inner.level].is_none() { inner.level -= 1 }` -/
@@ -270,11 +310,11 @@ def trimLevels : List (List CEntry) → List (List CEntry)
 /-- `remove_node_by_score(key = m, score = s)`: the node is unlinked only when the node found
     satisfies `target.key == key && target.value == *score` — false for a NaN score. -/
 def removeNode (m : Bytes) (s : CScore) (sl : SkipList) : SkipList :=
-  match findTarget (s, m) (level0 sl) with
+  match findTarget ccmpLt (s, m) (level0 sl) with
   | none => sl
   | some t =>
     if t.2 == m && feq t.1 s then
-      { sl with levels := trimLevels (unlinkLevels (s, m) t sl.levels), length := sl.length - 1 }
+      { sl with levels := trimLevels (unlinkLevels ccmpLt (s, m) t sl.levels), length := sl.length - 1 }
     else sl
 
 /-- `SkipList::insert(key, value)` with the random level `h` made explicit; returns the old score. -/
@@ -294,15 +334,15 @@ def remove (m : Bytes) (sl : SkipList) : SkipList × Option CScore :=
 
 def getScore (m : Bytes) (sl : SkipList) : Option CScore := idxGet m sl.keyIndex
 
-/-- The counting walk of `get_rank` along level 0. -/
-def rankWalk (q : CEntry) : List CEntry → Nat → Option Nat
+/-- The counting walk of `get_rank` along level 0 (`Less` → count on, `Equal` → found, `Greater` → give up). -/
+def rankWalk (lt eq : CEntry → CEntry → Bool) (q : CEntry) : List CEntry → Nat → Option Nat
   | [], _ => none
-  | y :: ys, r => if centLt y q then rankWalk q ys (r + 1) else if y = q then some r else none
+  | y :: ys, r => if lt y q then rankWalk lt eq q ys (r + 1) else if eq y q then some r else none
 
 def getRank (m : Bytes) (sl : SkipList) : Option Nat :=
   match idxGet m sl.keyIndex with
   | none => none
-  | some s => rankWalk (s, m) (level0 sl) 0
+  | some s => rankWalk ccmpLt ccmpEq (s, m) (level0 sl) 0
 
 /-- `range_by_rank(a, b)`: nothing when `a >= length`; otherwise ranks `a ..= min(b, length-1)`. -/
 def rangeByRank (a b : Nat) (sl : SkipList) : List CEntry :=
